@@ -110,7 +110,9 @@ Faults == <<
 >>
 
 Prefix == << Code("FARLBL:"), Code("DUP0:"), Code("nop"), Code("align 8192") >>
+\* (the include_bytes line: a reader that keeps per-file state must still name THIS file for the lines below the directive)
 Body(k) == << Code("K" \o ToString(k) \o " = " \o ToString(10 + k)),
+              Code("include_bytes blob.bin"),
               Code("F" \o ToString(k) \o ":"),
               Code("addi x8, x8, K" \o ToString(k)),
               Code("li x9, 74565"),
@@ -122,7 +124,7 @@ Dirs == <<"proj", "proj", "inc1">>
 
 VARIABLES sc
 Init == sc = [f |-> 0]
-Pick == sc.f = 0 /\ \E f \in 1..Len(Faults), pos \in 1..6, depth \in 0..2 :
+Pick == sc.f = 0 /\ \E f \in 1..Len(Faults), pos \in 1..7, depth \in 0..2 :
            sc' = [f |-> f, pos |-> pos, depth |-> depth]
 Next == Pick
 Spec == Init /\ [][Next]_sc
